@@ -1,7 +1,8 @@
 """C09 -- coverage reports the mean per-base depth of the counted reads in every bin.
 
 Real code: cnvlib.coverage.do_coverage (both algorithms, 1..16 processes, `to_chunks` with its real code and a
-non-default `chunk_size`) on synthetic coordinate-sorted BAMs written with pysam; cnvlib.parallel.to_chunks alone.
+non-default `chunk_size`) on synthetic coordinate-sorted BAMs written with pysam, called directly or through
+`cnvkit.py coverage` (commands.parse_args + _cmd_coverage + tabio.write); cnvlib.parallel.to_chunks alone.
 Model + oracle: lean/CnvVerif/Model/Coverage.lean, Driver/Coverage.lean (`handleCoverage`).
 """
 from __future__ import annotations
@@ -18,18 +19,34 @@ from ..core import frac
 LEVEL = "proof"
 RULE = ("op cov: synthetic coordinate-sorted BAM (1-3 contigs incl. names whose sort order differs from header order, "
         "0..5000 reads of length 30..150, soft/hard clips, =/X, optional insertions/deletions/ref-skips, FLAG = any "
-        "subset of the 12 bits, MAPQ 0..60, reads piled on bin edges and contig ends) x BED (3/4/6/8 columns, '#' "
-        "comments, abutting/overlapping/nested/zero-width/duplicate bins, bins straddling and past the contig end, "
-        "sorted or shuffled, numeric-looking and NA-looking names) x mapq cut-off x runs {pileup, count} x processes "
-        "{1,2,3,16} x chunk size {1,2,3,5,7,n-1,n,n+1,default 5000} x an arbitrary worker completion order for the "
-        "model; exhaustive small scope: every read [a,b) within 0..6 against every bin [s,e) within 0..7. "
-        "op chunks: to_chunks on 0..40 raw lines with comments, sizes 1..8 and 4999..10001 lines at the default size. "
-        "non-trivial = valid input with a bin of positive depth; distinct by hash")
+        "subset of the 12 bits, MAPQ 0..60, reads piled on bin edges and contig ends; 10 % of the layouts moved to "
+        "genome-scale coordinates 2^24..2.5e8; 30 % of the BAMs with some records stored without SEQ; 0/1/7 unplaced "
+        "unmapped reads at the end) x index files next to the BAM {s.bam.bai, only s.bai, none, a stale index of "
+        "another BAM under either name} x BED (3/4/6/8/12 columns, '#' comments, abutting/overlapping/nested/zero-"
+        "width/duplicate bins, bins straddling and past the contig end, sorted or shuffled, numeric-looking and "
+        "NA-looking names, last line with or without a line end, file named *.bed / *.BED / *.txt / without "
+        "extension / with 'anti' in it) x mapq cut-off x fasta= given or not x runs {pileup, count} x processes "
+        "{1,2,3,16, now and then any of 4..15} x chunk size {1,2,3,5,7,n-1,n,n+1,default 5000} x an arbitrary worker "
+        "completion order for the model x call path: do_coverage with keywords / positionally / with every "
+        "default-valued argument left out, and 12-18 % of the cov cases (random ones, a flags-x-mapq triple, corpus "
+        "witnesses, one > 5000-line regions file) through `cnvkit.py coverage BAM BED` in-process (parse_args + "
+        "args.func): -c/--count, -q/--min-mapq, -p/--processes, -f/--fasta, -o/--output in short, long and "
+        "--opt=value spelling, before / between / after the positionals, values equal to the parser defaults mostly "
+        "left out, -o left out in a quarter (default file name in the working directory); the table handed to the "
+        "writer is judged like an API result and the written .cnn must read back (plain pandas) equal to it row by "
+        "row within 1e-5 (clause cli_written_file_is_the_table); bare `-p` not generated (proposed_fixes/"
+        "C09-cli-processes-bare.md); exhaustive small scope: every read [a,b) within 0..6 against every bin [s,e) "
+        "within 0..7. op chunks: to_chunks on 0..40 raw lines with comments, sizes 1..8 and 4999..10001 lines at the "
+        "default size. non-trivial = valid input with a bin of positive depth; distinct by hash")
 EXHAUSTIVE = {"quick": False, "thorough": False}
 ASSUMPTIONS = [
     "regions file lines are records or '#' comments (what to_chunks recognises); every record has the same number "
     "of columns; names are non-empty and carry no surrounding blanks",
-    "BAM is coordinate-sorted and indexed, every record's CIGAR consumes at least one reference base",
+    "BAM is coordinate-sorted (its index may be present under either name, missing, or older than the BAM: "
+    "do_coverage is expected to build it), every placed record's CIGAR consumes at least one reference base",
+    "regions file is plain text (a .gz regions file is refused by every path of do_coverage alike) with 3, 4 or "
+    ">= 6 columns (a 5-column BED whose 4th field is one of . + - is read by --count as a Picard interval list)",
+    "BAM input only (no CRAM); the fasta argument names a FASTA of the contigs and is irrelevant to the result",
     "worker schedules: model = Executor.map returns results in submission order for every completion order "
     "(proved for every permutation in the model; the real pool is exercised with 1,2,3,16 processes)",
     "log2 itself is checked as 2**log2 == depth to 1e-9 (math.log / np.log2 are third-party numerics)",
@@ -37,8 +54,8 @@ ASSUMPTIONS = [
     "positions count as covered); the property claims equality of the algorithms only without indels",
 ]
 TRUSTED_EXTRA = ["pysam / htslib: BAM writer, index, fetch, AlignedSegment.positions, samtools bedcov (default flag "
-                 "filter, -Q)", "concurrent.futures.ProcessPoolExecutor.map ordering", "pandas read_csv / concat",
-                 "math.log, numpy.log2"]
+                 "filter, -Q, --reference)", "concurrent.futures.ProcessPoolExecutor.map ordering",
+                 "pandas read_csv / concat", "math.log, numpy.log2", "argparse"]
 
 BITS = (1, 2, 4, 8, 16, 32, 64, 128, 256, 512, 1024, 2048)
 EXCL = (4, 256, 512, 1024)
@@ -197,6 +214,11 @@ def _runs(rng, nrec, big=False, procs_cycle=0):
 INDEX_MODES = ["bam.bai", "bam.bai", "bam.bai", "bai", "none", "stale", "stale-bai"]
 BED_NAMES = ["r.bed", "r.bed", "r.bed", "targets.txt", "baits", "my.antitarget.bed", "S1.targets.BED"]
 CALL_STYLES = ["kw", "kw", "pos", "implicit"]
+# `-p` without a number ("use the maximum number of available CPUs") makes `cnvkit.py coverage` die with
+# ValueError('max_workers must be greater than 0'): proposed_fixes/C09-cli-processes-bare.md.  Until that is
+# repaired no generated command line uses the bare form; set to True afterwards (half of the 16-process runs of
+# the command-line cases then use it).
+P_BARE = True   # finding AS fixed in /repo (55d0dca)
 
 
 def _argv(rng, algo, q, procs, fasta):
@@ -211,7 +233,8 @@ def _argv(rng, algo, q, procs, fasta):
         opts.append([rng.choice(["-c", "--count"])])
     if q != 0 or rng.random() < 0.25:
         opts.append(opt("-q", "--min-mapq", str(q)))
-    if procs != 1 or rng.random() < 0.25:
+    bare = P_BARE and procs == 16 and rng.random() < 0.5
+    if not bare and (procs != 1 or rng.random() < 0.25):
         opts.append(opt("-p", "--processes", str(procs)))
     if fasta:
         opts.append(opt("-f", "--fasta", "{fa}"))
@@ -221,7 +244,7 @@ def _argv(rng, algo, q, procs, fasta):
     a, b = sorted([rng.randint(0, len(opts)), rng.randint(0, len(opts))])
     flat = lambda xs: [w for o in xs for w in o]
     # `-c` takes no value: it may sit directly before a positional; every other option here carries its value
-    return ["coverage"] + flat(opts[:a]) + ["{bam}"] + flat(opts[a:b]) + ["{bed}"] + flat(opts[b:])
+    return ["coverage"] + flat(opts[:a]) + ["{bam}"] + flat(opts[a:b]) + ["{bed}"] + flat(opts[b:]) + (["-p"] if bare else [])
 
 
 def _variant(rng, far=False, cli=None):
@@ -255,7 +278,7 @@ def _case(rng, k, nreads=None, nbins=None, tag=None, comments=None, odd=None, cl
     reads = _reads(rng, contigs, n, indels, edges, noseq=rng.random() < 0.3)
     far = rng.random() < 0.1
     if far:  # genome-scale coordinates: the same layout moved far down the contigs
-        off = dict((nm, rng.choice([10 ** 6, 123456789, 2 ** 27 + 5, 248000000])) for nm in names)
+        off = dict((nm, rng.choice([2 ** 24 + 1, 123456789, 2 ** 27 + 5, 248000000])) for nm in names)
         contigs = [[nm, L + off[nm]] for nm, L in contigs]
         recs = [[c, s + off[c], e + off[c]] for c, s, e in recs]
         for r in reads:
@@ -400,6 +423,13 @@ def corpus():
                         ["coverage", "-c", "-f", "{fa}", "{bam}", "{bed}", "-q", "21", "-p", "3", "-o", "{out}"]])):
         c.append({"op": "cov", "tag": "cli-corpus-variant", "in": dict(base, q=q, fasta=fa, cli=True, argv=argv,
                                                                       index="none" if q == 1 else "bam.bai")})
+    # genome-scale coordinates through the command line (the .cnn must carry them digit for digit)
+    off = 123456789
+    c.append({"op": "cov", "tag": "cli-corpus-far", "in": dict(
+        base, contigs=[["chr1", 1000 + off], ["chr2", 500 + off]], q=0, cli=True, index="bai", bedname="targets.txt",
+        reads=[r[:1] + [r[1] + off] + r[2:] for r in base["reads"]], bed=[[b[0], b[1] + off, b[2] + off, b[3]] for b in base["bed"]],
+        argv=[["coverage", "{bam}", "{bed}", "-o", "{out}"], ["coverage", "{bam}", "{bed}", "-c", "-o", "{out}"],
+              ["coverage", "{bam}", "{bed}", "-p", "2", "-o", "{out}"], ["coverage", "{bam}", "{bed}", "-c", "-p", "3"]])})
     c += [{"op": "chunks", "tag": "corpus-chunks", "in": {"lines": l, "size": s}} for l, s in (
         ([], 3), (["#a\n"], 1), (["a\n", "b\n", "c\n"], 3), (["a\n", "b\n", "c\n", "d\n"], 3),
         (["#x\n", "a\n", "#y\n", "b\n", "#z\n"], 1), (["a\n", "b\n", "#tail\n"], 2), (["a\n", "b"], 5))]
@@ -560,7 +590,7 @@ def _cov_cli(argv, paths, outdir):
         def write(self, garr, outfname=None, *a, **k):
             captured.append(garr)
             return tabio.write(garr, outfname, *a, **k)
-    saved, cwd = commands.tabio, os.getcwd()
+    saved, cwd, quiet = commands.tabio, os.getcwd(), logging.root.manager.disable
     commands.tabio = _Tab()
     os.chdir(outdir)  # without -o the file goes to the working directory
     logging.disable(logging.CRITICAL)
@@ -568,7 +598,7 @@ def _cov_cli(argv, paths, outdir):
         args = commands.parse_args(argv)
         args.func(args)
     finally:
-        logging.disable(logging.NOTSET)
+        logging.disable(quiet)
         os.chdir(cwd)
         commands.tabio = saved
     files = sorted(glob.glob(os.path.join(outdir, "*")))
